@@ -1406,7 +1406,13 @@ func init() {
 				return SV{}, fmt.Errorf("isnew() needs a slice or a pointer")
 			}
 			p := a.V.C[0]
-			top0 := env.fr.q.get(env.old, "$top")
+			// the allocation mark of the function under verification at its entry (for a clause evaluated at a call site,
+			// env.old is the state before the call, which is what "allocated by the callee" means there)
+			ref := env.old
+			if env.fr != nil && env.fr.parent != nil && env.fn == env.fr.fn {
+				ref = env.fr.root().entry
+			}
+			top0 := env.fr.q.get(ref, "$top")
 			return SV{T: types.Typ[types.Bool], V: Val{C: []string{"(or (= " + p + " 0) (>= " + p + " " + top0 + "))"}}}, nil
 		},
 		// succeeded(): the error result is nil (true for a function without an error result)
